@@ -1,9 +1,343 @@
 import ScryerModel.Proofs.Random
-/-! # C52 — Random number predicates are in range and reproducible (work in progress) -/
+import Mathlib.Order.Interval.Finset.Nat
+/-!
+# C52 — Random number predicates are in range and reproducible
+
+Theorems over `Model/Random.lean`, the branch-by-branch mirror of `random.pl`, of the system calls
+`'$random_integer'`, `'$maybe'`, `'$set_seed'`, of rand 0.8.6 `UniformInt::sample_single_inclusive`
+and of dashu-int 0.4.2 `UBig::uniform` / `try_fill_uniform`.
+
+Every theorem is for an ARBITRARY raw word stream `s : Nat → UInt32`, read position `p`, fuel, and
+integer bounds of any size and sign.  The rejection loops carry fuel; `… = some …` means "the call
+returned"; that it returns with probability 1 is not a theorem (see `C52_fuel_irrelevant` for what
+fuel means and `C52_uniform_preimages` for the acceptance count per attempt).
+
+Integers carry their representation (`big` = held in an arena `Integer`), because the system call
+chooses its sampler by representation.  `ArgWf`: a `Fixnum` cell holds a 56-bit value (an invariant
+of the machine); an arena integer may hold anything.
+-/
 namespace Scryer.Random
 
-/-- every value accepted by rand's rejection loop is below `range`. -/
-theorem C52_sampleLoop_lt (w : Width) (s : Stream) (range zn fuel p : Nat) (r : Nat × Nat) (hr : 0 < range)
-    (h : sampleLoop w s range zn fuel p = some r) : r.1 < range := (sampleLoop_lt w s range zn hr fuel p r h).1
+/-- a `Fixnum` cell holds a value of the 56-bit range; an arena integer any value. -/
+def ArgWf (n : Int) (big : Bool) : Prop := big = false → isFix n = true
+
+/-! ## range safety -/
+
+/-- **Acceptance is in range (one word / double word sampler).** Whatever the stream, every value the
+    rejection loop of `sample_single_inclusive` returns is `< range`, and the call consumed words. -/
+theorem C52_sample_accept_lt (w : Width) (s : Stream) (range fuel p : Nat) (r : Nat × Nat)
+    (hr : 0 < range) (h : sampleOffset w s range fuel p = some r) : r.1 < range ∧ p < r.2 :=
+  ⟨(sampleOffset_lt w s range fuel p r h).2.1 hr, (sampleOffset_lt w s range fuel p r h).2.2⟩
+
+/-- **Multi-word sampler (spans ≥ 2^128 and below).** Every value `UBig::uniform(range)` returns is
+    `< range`, for every positive `range` of any size. -/
+theorem C52_uniform_ubig_lt (s : Stream) (range fuel p : Nat) (x : Nat × Nat) (hr : 0 < range)
+    (h : uniformUBig s range fuel p = some x) : x.1 < range :=
+  (uniformUBig_lt s range fuel p x hr h).1
+
+/-- **Range safety of the system call**: for `L < U` of any size and sign, in every representation
+    arm, the value left in the third argument satisfies `L ≤ X < U`; the fixnum arm's
+    `Fixnum::build_with_unchecked` is applied to a value of the fixnum range; words were consumed. -/
+theorem C52_sys_range (s : Stream) (l u : Int) (lb ub : Bool) (fuel p : Nat) (res : Res) (p' : Nat)
+    (hl : ArgWf l lb) (hu : ArgWf u ub) (hlu : l < u)
+    (h : sysRandomInteger s l u lb ub fuel p = some (res, p')) :
+    ∃ v, res.val? = some v ∧ l ≤ v ∧ v < u ∧ (res = .fix v → isFix v = true) ∧ p < p' := by
+  unfold sysRandomInteger at h
+  split at h
+  · rename_i hc
+    simp only [Bool.and_eq_true, Bool.not_eq_true'] at hc
+    rw [if_neg (by omega)] at h
+    split at h
+    · cases h
+    · rename_i r hr
+      injection h with h; injection h with h1 h2; subst h1; subst h2
+      have := genRangeI64_spec s l u fuel p r (hl hc.1) (hu hc.2) hlu hr
+      exact ⟨r.1, rfl, this.1, this.2.1, fun _ => this.2.2.1, this.2.2.2⟩
+  · rw [if_neg (by omega)] at h
+    split at h
+    · cases h
+    · rename_i r hr
+      injection h with h; injection h with h1 h2; subst h1; subst h2
+      have := uniformUBig_lt s (u - l).toNat fuel p r (by omega) hr
+      refine ⟨(r.1 : Int) + l, rfl, by omega, by omega, fun hf => by cases hf, this.2⟩
+
+/-- **Failure iff the range is empty**, and then no raw word is consumed. -/
+theorem C52_sys_fail_iff (s : Stream) (l u : Int) (lb ub : Bool) (fuel p : Nat) (res : Res) (p' : Nat)
+    (h : sysRandomInteger s l u lb ub fuel p = some (res, p')) :
+    (res = .fail ↔ u ≤ l) ∧ (res = .fail → p' = p) := by
+  unfold sysRandomInteger at h
+  by_cases hge : l ≥ u
+  · simp only [hge, if_true, ite_self] at h
+    injection h with h; injection h with h1 h2; subst h1; subst h2
+    exact ⟨⟨fun _ => hge, fun _ => rfl⟩, fun _ => rfl⟩
+  · simp only [hge, if_false] at h
+    have : res ≠ .fail := by
+      split at h
+      · split at h
+        · cases h
+        · injection h with h; injection h with h1 h2; subst h1; intro hh; cases hh
+      · split at h
+        · cases h
+        · injection h with h; injection h with h1 h2; subst h1; intro hh; cases hh
+    exact ⟨⟨fun hh => absurd hh this, fun hh => absurd hh hge⟩, fun hh => absurd hh this⟩
+
+/-- **`random_integer/3`, integer bounds, unbound third argument**: `L ≤ X < U` whenever `L < U`
+    (any size, any sign, any representation); failure without touching the generator when `U ≤ L`. -/
+theorem C52_random_integer_range (s : Stream) (l u : Int) (lb ub : Bool) (fuel p : Nat) (out : Out) (p' : Nat)
+    (hl : ArgWf l lb) (hu : ArgWf u ub)
+    (h : randomInteger s (.int l lb) (.int u ub) .var fuel p = some (out, p')) :
+    (l < u → ∃ v, out = .int v ∧ l ≤ v ∧ v < u ∧ p < p') ∧ (u ≤ l → out = .fails ∧ p' = p) := by
+  simp only [randomInteger] at h
+  by_cases hlu : l < u
+  · simp only [hlu, if_true] at h
+    refine ⟨fun _ => ?_, fun hh => absurd hlu (by omega)⟩
+    split at h
+    · cases h
+    · rename_i p1 hs
+      have := (C52_sys_fail_iff s l u lb ub fuel p .fail p1 hs).1.1 rfl
+      omega
+    · rename_i v p1 hs
+      injection h with h; injection h with h1 h2; subst h1; subst h2
+      obtain ⟨v', hv', h1, h2, _, h4⟩ := C52_sys_range s l u lb ub fuel p (.fix v) p1 hl hu hlu hs
+      cases hv'; exact ⟨v, rfl, h1, h2, h4⟩
+    · rename_i v p1 hs
+      injection h with h; injection h with h1 h2; subst h1; subst h2
+      obtain ⟨v', hv', h1, h2, _, h4⟩ := C52_sys_range s l u lb ub fuel p (.big v) p1 hl hu hlu hs
+      cases hv'; exact ⟨v, rfl, h1, h2, h4⟩
+  · simp only [hlu, if_false] at h
+    injection h with h; injection h with h1 h2
+    exact ⟨fun hh => absurd hh hlu, fun _ => ⟨h1.symm, h2.symm⟩⟩
+
+/-- a range of width one always yields its lower bound. -/
+theorem C52_span_one (s : Stream) (l : Int) (lb ub : Bool) (fuel p : Nat) (out : Out) (p' : Nat)
+    (hl : ArgWf l lb) (hu : ArgWf (l + 1) ub)
+    (h : randomInteger s (.int l lb) (.int (l + 1) ub) .var fuel p = some (out, p')) : out = .int l := by
+  obtain ⟨v, hv, h1, h2, _⟩ := (C52_random_integer_range s l (l + 1) lb ub fuel p out p' hl hu h).1 (by omega)
+  have : v = l := by omega
+  rw [hv, this]
+
+/-! ## error / failure table (in the code's order; no raw word is consumed) -/
+
+/-- a bound third argument makes the call fail before anything else is looked at (`var(R)`). -/
+theorem C52_random_integer_nonvar_result (s : Stream) (L U R : Arg) (fuel p : Nat) (hR : R ≠ .var) :
+    randomInteger s L U R fuel p = some (.fails, p) := by
+  cases R with
+  | var => exact absurd rfl hR
+  | int n b => rfl
+  | other t => rfl
+
+/-- unbound `Lower` or `Upper`: `instantiation_error`, even if the other bound is not an integer. -/
+theorem C52_random_integer_inst_error (s : Stream) (L U : Arg) (fuel p : Nat) (h : L = .var ∨ U = .var) :
+    randomInteger s L U .var fuel p = some (.instErr "random_integer/3", p) := by
+  rcases h with rfl | rfl
+  · cases U <;> rfl
+  · cases L <;> rfl
+
+/-- non-integer `Lower` (with `Upper` bound): `type_error(integer, Lower)`;
+    integer `Lower` and non-integer `Upper`: `type_error(integer, Upper)`. -/
+theorem C52_random_integer_type_error (s : Stream) (t : String) (U : Arg) (n : Int) (b : Bool) (fuel p : Nat) :
+    (U ≠ .var → randomInteger s (.other t) U .var fuel p = some (.typeErrInt t "random_integer/3", p)) ∧
+    randomInteger s (.int n b) (.other t) .var fuel p = some (.typeErrInt t "random_integer/3", p) := by
+  refine ⟨fun hU => ?_, rfl⟩
+  cases U with
+  | var => exact absurd rfl hU
+  | int n b => rfl
+  | other t' => rfl
+
+/-! ## random/1 -/
+
+/-- **`random/1` is in `[0, 1)`, never 1.0, and exact**: the result is the double with bits
+    `ratioBits K` for some `K < 2^50` drawn by the fixnum arm; those bits are below the bits of `1.0`
+    (`0x3FF0000000000000`; sign bit clear), `K = 0` gives `+0.0`, and for `K > 0` the double is a
+    normal number whose value `(2^52 + mantissa) · 2^(exponent − 1075)` equals `K / 2^50` exactly. -/
+theorem C52_random_unit_interval (s : Stream) (fuel p : Nat) (out : Out) (p' : Nat)
+    (h : random s .var fuel p = some (out, p')) :
+    ∃ k : Nat, k < 2 ^ 50 ∧ out = .float (ratioBits k) ∧ ratioBits k < 0x3FF0000000000000 ∧
+      (k = 0 → ratioBits k = 0) ∧
+      (0 < k → 1 ≤ ratioBits k / 2 ^ 52 ∧ ratioBits k / 2 ^ 52 ≤ 1022 ∧
+        (2 ^ 52 + ratioBits k % 2 ^ 52) * 2 ^ 50 = k * 2 ^ (1075 - ratioBits k / 2 ^ 52)) := by
+  have hfix0 : ArgWf 0 false := fun _ => by decide
+  have hfixN : ArgWf 1125899906842624 false := fun _ => by decide
+  have key : ∀ k : Nat, k < 2 ^ 50 → ratioBits k < 0x3FF0000000000000 ∧ (k = 0 → ratioBits k = 0) ∧
+      (0 < k → 1 ≤ ratioBits k / 2 ^ 52 ∧ ratioBits k / 2 ^ 52 ≤ 1022 ∧
+        (2 ^ 52 + ratioBits k % 2 ^ 52) * 2 ^ 50 = k * 2 ^ (1075 - ratioBits k / 2 ^ 52)) := by
+    intro k hk
+    by_cases h0 : k = 0
+    · subst h0; simp [ratioBits]
+    · have hpos : 0 < k := by omega
+      obtain ⟨e1, e2⟩ := ratioBits_spec hpos (by omega : k < 2 ^ 53)
+      have hl : Nat.log2 k + 1 ≤ 50 := log2_lt_bits h0 hk
+      refine ⟨?_, fun hh => absurd hh h0, fun _ => ⟨by omega, by omega, by rw [e1]; exact e2⟩⟩
+      have hm : ratioBits k % 2 ^ 52 < 2 ^ 52 := Nat.mod_lt _ (by norm_num)
+      have := Nat.div_add_mod (ratioBits k) (2 ^ 52)
+      omega
+  simp only [random] at h
+  split at h
+  · cases h
+  · rename_i p1 hs
+    have := (C52_sys_fail_iff s 0 1125899906842624 false false fuel p .fail p1 hs).1.1 rfl
+    omega
+  · rename_i v p1 hs
+    injection h with h; injection h with h1 h2
+    obtain ⟨v', hv', h1', h2', _⟩ := C52_sys_range s 0 1125899906842624 false false fuel p (.fix v) p1 hfix0 hfixN (by decide) hs
+    cases hv'
+    have hk : v.toNat < 2 ^ 50 := by omega
+    exact ⟨v.toNat, hk, h1.symm, key _ hk⟩
+  · rename_i v p1 hs
+    injection h with h; injection h with h1 h2
+    obtain ⟨v', hv', h1', h2', _⟩ := C52_sys_range s 0 1125899906842624 false false fuel p (.big v) p1 hfix0 hfixN (by decide) hs
+    cases hv'
+    have hk : v.toNat < 2 ^ 50 := by omega
+    exact ⟨v.toNat, hk, h1.symm, key _ hk⟩
+
+/-- `maybe/0` succeeds iff the sign bit of the next raw word is clear; it consumes exactly one word. -/
+theorem C52_maybe (s : Stream) (p : Nat) :
+    ((maybe s p).1 = .succeeds ↔ (s p).toNat < 2 ^ 31) ∧ ((maybe s p).1 = .fails ↔ 2 ^ 31 ≤ (s p).toNat) ∧
+    (maybe s p).2 = p + 1 := by
+  unfold maybe sysMaybe w32
+  by_cases h : (s p).toNat < 2 ^ 31
+  · simp [h]
+  · simp [h]; omega
+
+/-! ## uniformity of one attempt -/
+
+/-- **Exact uniformity of the widening-multiply sampler.** For `0 < range < 2^bits` the wrapping zone
+    computation never wraps (`zone + 1 = range · 2^lz`), and every result `k < range` has exactly
+    `2^lz` accepted raw words (`lz = range.leading_zeros()`) among the `2^bits` possible ones: the map
+    raw word ↦ result restricted to accepted words is a `2^lz`-to-1 surjection onto `[0, range)`.
+    Hence each attempt accepts with probability `range · 2^lz / 2^bits ≥ 1/2`, independently of
+    everything drawn before, and accepted values are unbiased. -/
+theorem C52_uniform_preimages (w : Width) (range k : Nat) (h0 : range ≠ 0) (hlt : range < 2 ^ w.bits)
+    (hk : k < range) :
+    zone w range + 1 = range * 2 ^ leadingZeros w.bits range ∧
+    2 ^ (w.bits - 1) ≤ zone w range + 1 ∧
+    ((Finset.range (2 ^ w.bits)).filter
+      (fun v => (v * range) % 2 ^ w.bits ≤ zone w range ∧ (v * range) / 2 ^ w.bits = k)).card
+      = 2 ^ leadingZeros w.bits range := by
+  have hz := zone_eq w h0 hlt
+  obtain ⟨hs1, hs2⟩ := shifted_bounds w h0 hlt
+  refine ⟨hz, by omega, ?_⟩
+  have hr : 0 < range := by omega
+  set m := 2 ^ leadingZeros w.bits range with hm
+  set B := 2 ^ w.bits with hB
+  have hset : (Finset.range B).filter (fun v => (v * range) % B ≤ zone w range ∧ (v * range) / B = k)
+      = Finset.Ico ((k * B + range - 1) / range) ((k * B + range - 1) / range + m) := by
+    ext v
+    simp only [Finset.mem_filter, Finset.mem_range, Finset.mem_Ico]
+    have e1 : ((v * range) % B ≤ zone w range ∧ (v * range) / B = k) ↔
+        ((v * range) % B < range * m ∧ (v * range) / B = k) := by
+      rw [← hz]; constructor <;> rintro ⟨a, b⟩ <;> exact ⟨by omega, b⟩
+    rw [e1, accept_iff_window B range m k (v * range) (by omega), window_iff_Ico B range m k v hr]
+    constructor
+    · rintro ⟨_, h⟩; exact h
+    · intro h
+      refine ⟨?_, h⟩
+      -- every accepted word is a `bits`-bit word
+      have hw := (window_iff_Ico B range m k v hr).2 h
+      have h1 : k * B + B ≤ range * B := by
+        have : (k + 1) * B ≤ range * B := Nat.mul_le_mul_right B (by omega)
+        rw [Nat.add_mul] at this; omega
+      have h2 : v * range < B * range := by rw [Nat.mul_comm B range]; omega
+      exact Nat.lt_of_mul_lt_mul_right h2
+  rw [hset, Nat.card_Ico]; omega
+
+/-- the decision of one attempt of the loop depends only on the words of that attempt: the loop is
+    "draw, test, return or repeat from the next position" (the unfolding equation). -/
+theorem C52_rejection_memoryless (w : Width) (s : Stream) (range zn fuel p : Nat) :
+    sampleLoop w s range zn (fuel + 1) p =
+      if ((gen w s p).1 * range) % 2 ^ w.bits ≤ zn then
+        some (((gen w s p).1 * range) / 2 ^ w.bits, (gen w s p).2)
+      else sampleLoop w s range zn fuel (gen w s p).2 := rfl
+
+/-! ## determinism / reproducibility -/
+
+/-- **Fuel only bounds the search**: if a call returns with some fuel, it returns the same value and
+    position with any larger fuel — an answer is a function of (stream, position, bounds) only. -/
+theorem C52_fuel_irrelevant (s : Stream) (L U R : Arg) (fuel fuel' p : Nat) (x : Out × Nat)
+    (hle : fuel ≤ fuel') (h : randomInteger s L U R fuel p = some x) :
+    randomInteger s L U R fuel' p = some x := by
+  cases R with
+  | int n b => exact h
+  | other t => exact h
+  | var =>
+    cases L with
+    | var => cases U <;> exact h
+    | other t => cases U <;> exact h
+    | int l lb =>
+      cases U with
+      | var => exact h
+      | other t => exact h
+      | int u ub =>
+        simp only [randomInteger] at h ⊢
+        split
+        · rename_i hlu
+          rw [if_pos hlu] at h
+          split at h
+          · cases h
+          all_goals (rename_i hs; rw [sysRandomInteger_mono s l u lb ub fuel fuel' p _ hle hs]; exact h)
+        · rename_i hlu; rw [if_neg hlu] at h; exact h
+
+/-- **`set_random(seed(S))` erases the history**: whatever the generator state was (entropy-seeded,
+    any earlier seed, any number of earlier draws), the outcomes of the calls that follow
+    `set_random(seed(S))` are the same — a function of `S mod 2^64` and of the calls. -/
+theorem C52_reseed_forgets_history (mk : Nat → Stream) (fuel : Nat) (g g' : GenState) (S : Int) (cs : List Call) :
+    (runScript mk fuel g (.setRandom (.seedInt S) :: cs)).1 =
+    (runScript mk fuel g' (.setRandom (.seedInt S) :: cs)).1 := by
+  simp [runScript, step, setRandom]
+
+/-- after a successful `set_random(seed(S))` the script's outcomes are those of the fresh generator of
+    the seed `S mod 2^64` at position 0. -/
+theorem C52_reseed_is_fresh (mk : Nat → Stream) (fuel : Nat) (g : GenState) (S : Int) (cs : List Call) :
+    runScript mk fuel g (.setRandom (.seedInt S) :: cs) =
+      (.succeeds :: (runScript mk fuel (some (toU64 S, 0)) cs).1, (runScript mk fuel (some (toU64 S, 0)) cs).2) := by
+  simp [runScript, step, setRandom]
+
+/-- **`set_random/1` table** (repaired `'$set_seed'`): every integer seed of any size and sign is
+    accepted; unbound seed → `instantiation_error`; non-integer seed → `type_error(integer, S)`;
+    a non-`seed/1` argument fails; the three non-success cases leave the generator alone. -/
+theorem C52_set_random_table (g : GenState) (n : Int) (t : String) :
+    setRandom (.seedInt n) g = (.succeeds, some (toU64 n, 0)) ∧ toU64 n < 2 ^ 64 ∧
+    setRandom .var g = (.instErr "set_random/1", g) ∧
+    setRandom .seedVar g = (.instErr "set_random/1", g) ∧
+    setRandom (.seedOther t) g = (.typeErrInt t "set_random/1", g) ∧
+    setRandom .other g = (.fails, g) := by
+  refine ⟨rfl, ?_, rfl, rfl, rfl, rfl⟩
+  unfold toU64; omega
+
+/-- the pinned `'$set_seed'` agrees with the repaired one exactly on seeds in `0 .. 2^64`, and panics
+    (finding C52-1) on every other integer. -/
+theorem C52_pinned_set_seed (g : GenState) (n : Int) :
+    (0 ≤ n ∧ n < 18446744073709551616 → setRandomPinned (.seedInt n) g = setRandom (.seedInt n) g) ∧
+    (¬ (0 ≤ n ∧ n < 18446744073709551616) → (setRandomPinned (.seedInt n) g).1 = .panic) := by
+  constructor
+  · intro h
+    simp only [setRandomPinned, h, and_self, if_true, setRandom]
+    congr 3
+    unfold toU64; omega
+  · intro h
+    simp only [setRandomPinned, h, if_false]
+
+/-! ## non-vacuity and witnesses -/
+
+/-- a stream of all-zero words. -/
+def zeroStream : Stream := fun _ => 0
+
+/-- the fixnum arm returns on the zero stream (product 0: accepted at once, value `L`). -/
+example : randomInteger zeroStream (.int (-3) false) (.int 10 false) .var 1 0 = some (.int (-3), 2) := by decide
+/-- the u128 arm (a span of 2^64 + 3 straddling the fixnum boundary). -/
+example : randomInteger zeroStream (.int 5 false) (.int 18446744073709551624 true) .var 1 7 = some (.int 5, 11) := by
+  decide
+/-- empty and reversed ranges fail without consuming a word. -/
+example : randomInteger zeroStream (.int 4 false) (.int 4 false) .var 1 9 = some (.fails, 9) := by decide
+example : randomInteger zeroStream (.int 18446744073709551624 true) (.int 4 false) .var 1 9 = some (.fails, 9) := by decide
+/-- fuel 0: the loop gives up (the only way the model returns `none`). -/
+example : randomInteger zeroStream (.int 0 false) (.int 4 false) .var 0 0 = none := by decide
+/-- the pinned `'$set_seed'` panics on `seed(-1)` and on `seed(2^64)` (finding C52-1). -/
+example : (setRandomPinned (.seedInt (-1)) none).1 = .panic := by decide
+example : (setRandomPinned (.seedInt 18446744073709551616) none).1 = .panic := by decide
+/-- the repaired one accepts them: `-1` is the seed `2^64 - 1`. -/
+example : setRandom (.seedInt (-1)) none = (.succeeds, some (18446744073709551615, 0)) := by decide
+/-- `ArgWf` is satisfiable in both representations, also for a small value in an arena integer. -/
+example : ArgWf 5 false ∧ ArgWf 5 true ∧ ArgWf (2 ^ 70) true := ⟨fun _ => by decide, fun h => by cases h, fun h => by cases h⟩
 
 end Scryer.Random
